@@ -173,26 +173,32 @@ mod bridge {
         }
     }
 
-    async fn run_impl(net: &Net, c: &Cfg, ins: &[In]) -> Vec<Option<Out>> {
+    async fn run_impl(net: &Net, c: &Cfg, ins: &[In]) -> (Vec<Option<Out>>, Option<String>) {
+        use futures::FutureExt;
+        use std::panic::AssertUnwindSafe as Aus;
+        let mut panicked: Option<String> = None;
         let (_tx0, rx0) = watch::channel(None::<IceSocketWrapper>);
         let src = RtpTransport::new(IceConn::new(rx0, "127.0.0.1:9".parse().unwrap(), None), false);
         let (_tx1, rx1) = watch::channel(Some(IceSocketWrapper::Udp(net.dst_main.clone())));
         let main = Arc::new(RtpTransport::new(IceConn::new(rx1, net.sink_main.local_addr().unwrap(), None), false));
         let (_tx2, rx2) = watch::channel(Some(IceSocketWrapper::Udp(net.dst_video.clone())));
         let video = Arc::new(RtpTransport::new(IceConn::new(rx2, net.sink_video.local_addr().unwrap(), None), false));
-        if let Some((off, fixed, pt, dtmf)) = c.legacy {
-            src.bridge_rewrite_to(main.clone(), RtpRewriteBridgeParams {
-                ssrc_offset: off, fixed_out_ssrc: fixed, payload_type: pt, dtmf_payload_type: dtmf,
-                initial_sequence_number: Some(c.init_seq), initial_timestamp_offset: Some(c.init_off), strip_extensions: c.strip });
-        } else {
-            let rules: Vec<RtpRewriteRule> = c.rules.iter().map(|r| RtpRewriteRule {
-                match_payload_type: r.m_pt, fixed_out_ssrc: r.fixed, ssrc_offset: r.off, out_payload_type: r.out_pt,
-                sdes_mid_extension_id: r.mid_id, sdes_mid: r.mid.clone() }).collect();
-            let opts = RtpRewriteBridgeOptions { strip_extensions: c.strip, initial_sequence_number: Some(c.init_seq),
-                initial_timestamp_offset: Some(c.init_off), initial_output_timestamp: c.init_out_ts };
-            src.bridge_rewrite_rules_to_with_video(main.clone(), if c.has_video { Some(video.clone()) } else { None },
-                c.video_pts.iter().copied().collect::<HashSet<u8>>(), opts, rules);
-        }
+        let install = catch(Aus(|| {
+            if let Some((off, fixed, pt, dtmf)) = c.legacy {
+                src.bridge_rewrite_to(main.clone(), RtpRewriteBridgeParams {
+                    ssrc_offset: off, fixed_out_ssrc: fixed, payload_type: pt, dtmf_payload_type: dtmf,
+                    initial_sequence_number: Some(c.init_seq), initial_timestamp_offset: Some(c.init_off), strip_extensions: c.strip });
+            } else {
+                let rules: Vec<RtpRewriteRule> = c.rules.iter().map(|r| RtpRewriteRule {
+                    match_payload_type: r.m_pt, fixed_out_ssrc: r.fixed, ssrc_offset: r.off, out_payload_type: r.out_pt,
+                    sdes_mid_extension_id: r.mid_id, sdes_mid: r.mid.clone() }).collect();
+                let opts = RtpRewriteBridgeOptions { strip_extensions: c.strip, initial_sequence_number: Some(c.init_seq),
+                    initial_timestamp_offset: Some(c.init_off), initial_output_timestamp: c.init_out_ts };
+                src.bridge_rewrite_rules_to_with_video(main.clone(), if c.has_video { Some(video.clone()) } else { None },
+                    c.video_pts.iter().copied().collect::<HashSet<u8>>(), opts, rules);
+            }
+        }));
+        if let Err(m) = install { panicked = Some(format!("installing the bridge panicked: {}", m)); }
         let from: SocketAddr = "127.0.0.1:5000".parse().unwrap();
         let mut buf = Vec::with_capacity(1500);
         let mut outs = vec![];
@@ -201,7 +207,9 @@ mod bridge {
         for (k, i) in ins.iter().enumerate() {
             let payload = [k as u8, 0xAB, (k >> 8) as u8, 0xCD, 1, 2, 3];
             let wire = build_rtp(i.ssrc, i.pt, i.seq, i.ts, i.marker, &i.ext, &payload);
-            src.receive(Bytes::from(wire), from, &mut buf).await;
+            if let Err(e) = Aus(src.receive(Bytes::from(wire), from, &mut buf)).catch_unwind().await {
+                panicked.get_or_insert(format!("packet {}: receive (rewrite bridge) panicked: {}", k, panic_msg(e)));
+            }
             let got = tokio::time::timeout(std::time::Duration::from_millis(500), async {
                 tokio::select! {
                     r = net.sink_main.recv_from(&mut rb) => r.ok().map(|(n, _)| (false, rb[..n].to_vec())),
@@ -210,7 +218,7 @@ mod bridge {
             }).await;
             outs.push(match got { Ok(Some((v, d))) => parse_wire(v, &d, &payload), _ => None });
         }
-        outs
+        (outs, panicked)
     }
 
     // -------------------------------------------------------------------------- direct oracle
@@ -383,12 +391,73 @@ mod bridge {
                     Rule { m_pt: Some(101), fixed: None, off: 900, out_pt: Some(110), mid_id: None, mid: None }],
                    video_pts: vec![], has_video: false, legacy: Some((900, None, Some(96), Some((101, 110)))), ..base.clone() },
              vec![p(1111, 100, 1111), p(1111, 101, 1111), p(0xFFFF_FFFF, 100, 5)]),
+            // a DTMF digit in the middle of a call (legacy params): one output SSRC, consecutive sequence numbers
+            (Cfg { init_seq: 65533, init_off: 0, rules: vec![Rule { m_pt: None, fixed: Some(0xABCD), off: 0, out_pt: Some(0), mid_id: None, mid: None },
+                    Rule { m_pt: Some(101), fixed: Some(0xABCD), off: 0, out_pt: Some(110), mid_id: None, mid: None }],
+                   video_pts: vec![], has_video: false, legacy: Some((0, Some(0xABCD), Some(0), Some((101, 110)))), ..base.clone() },
+             vec![p(7, 0, 160), p(7, 0, 320), p(7, 101, 480), p(7, 101, 480), p(7, 0, 640), p(7, 101, 800), p(7, 0, 960)]),
+            // straggler 1000000 ticks late, then the next in-order packet: difference to the in-order stream kept
+            (base.clone(), vec![p(1, 0, 2_000_000), p(1, 0, 2_000_160), p(1, 0, 1_000_160), p(1, 0, 2_000_320), p(1, 0, 2_000_480)]),
+            // the same across the 32-bit wrap: newest just after the wrap, straggler from before it
+            (base.clone(), vec![p(1, 0, 0xFFFF_FF60), p(1, 0, 0), p(1, 0, 160), p(1, 0, 160u32.wrapping_sub(1_000_000)), p(1, 0, 320), p(1, 0, 480)]),
             // MID stamping into an existing one-byte block (replace and append), two-byte block untouched
             (base.clone(), vec![
                 In { ssrc: 9, pt: 98, seq: 1, ts: 0, marker: true, ext: Some(Ext { two_byte: false, elems: vec![(3, b"zz".to_vec()), (2, vec![1, 2, 3])] }) },
                 In { ssrc: 9, pt: 98, seq: 2, ts: 160, marker: false, ext: Some(Ext { two_byte: false, elems: vec![(2, vec![9])] }) },
                 In { ssrc: 9, pt: 98, seq: 3, ts: 320, marker: false, ext: Some(Ext { two_byte: true, elems: vec![(3, vec![9])] }) }]),
         ]
+    }
+
+    /// one source SSRC whose packets alternate between payload types that match DIFFERENT rules
+    /// (audio + RFC 4733 telephone-event, with equal or different rule SSRCs), optionally with a
+    /// second source interleaved: still one output SSRC and consecutive sequence numbers
+    fn gen_pt_switch(r: &mut Rng) -> (Cfg, Vec<In>) {
+        let same_ssrc = r.chance(1, 2);
+        let legacy = r.chance(1, 3);
+        let fixed = if r.chance(2, 3) { Some(*r.pick(&[111u32, 0xABCD])) } else { None };
+        let off = *r.pick(&[0u32, 900]);
+        let dtmf_out = *r.pick(&[110u8, 101]);
+        let audio_out = if r.chance(2, 3) { Some(*r.pick(&[96u8, 0])) } else { None };
+        let mut rules = vec![Rule { m_pt: None, fixed, off, out_pt: audio_out, mid_id: None, mid: None },
+                             Rule { m_pt: Some(101), fixed: if same_ssrc || legacy { fixed } else { Some(222) }, off, out_pt: Some(dtmf_out), mid_id: None, mid: None }];
+        if !legacy && r.chance(1, 2) { rules.push(Rule { m_pt: Some(8), fixed: Some(333), off: 0, out_pt: Some(9), mid_id: None, mid: None }); }
+        let c = Cfg { strip: r.chance(1, 5), init_seq: *r.pick(&[65533u16, 65534, 0, 32000]), init_off: *r.pick(&[0u32, 12345, 0xFFFF_FF00]),
+            init_out_ts: None, rules, video_pts: vec![], has_video: false,
+            legacy: if legacy { Some((off, fixed, audio_out, Some((101, dtmf_out)))) } else { None } };
+        let n = r.range(4, 12);
+        let two = r.chance(1, 3);
+        let mut ts = [*r.pick(&[0u32, 0xFFFF_FE00, 1000]), 5000u32];
+        let mut ins = vec![];
+        for k in 0..n {
+            let s = if two && r.chance(1, 3) { 1 } else { 0 };
+            ts[s] = ts[s].wrapping_add(160);
+            let pt = if s == 1 { 0 } else if k % 2 == 1 || r.chance(1, 4) { *r.pick(&[101u8, 101, 8]) } else { 0 };
+            ins.push(In { ssrc: 4000 + s as u32, pt, seq: k as u16, ts: ts[s], marker: pt == 101 && r.chance(1, 3), ext: None });
+        }
+        (c, ins)
+    }
+
+    /// in-order stream, then a straggler more than 900000 ticks (and less than 2^31) older than the
+    /// newest packet, then the next in-order packet -- also with the newest packet just after the
+    /// 32-bit timestamp wrap and the straggler from before it.  The straggler must not move the
+    /// reference: the in-order packets keep their source differences.
+    fn gen_straggler(r: &mut Rng) -> (Cfg, Vec<In>) {
+        let c = Cfg { strip: false, init_seq: *r.pick(&[7u16, 65535]), init_off: *r.pick(&[0u32, 0x8000_0000, 0xFFFF_FFF0]), init_out_ts: if r.chance(1, 4) { Some(50_000) } else { None },
+            rules: if r.chance(1, 2) { vec![Rule { m_pt: None, fixed: Some(111), off: 0, out_pt: Some(96), mid_id: None, mid: None }] } else { vec![] },
+            video_pts: vec![], has_video: false, legacy: None };
+        let start = *r.pick(&[2_000_000u32, 0xFFFF_FF00, 0xFFFF_FFFF, 0u32.wrapping_sub(320), 0x7FFF_FF00, 1_000_000]);
+        let behind = *r.pick(&[900_001u32, 900_000, 900_161, 2_000_000, 0x7FFF_FFFF, 0x4000_0000, 899_999, 1_000_000]);
+        let mut ins = vec![];
+        let mut ts = start;
+        let mut seq = 0u16;
+        let mut push = |ins: &mut Vec<In>, ssrc: u32, ts: u32| { ins.push(In { ssrc, pt: 0, seq, ts, marker: false, ext: None }); seq = seq.wrapping_add(1); };
+        for _ in 0..r.range(1, 3) { push(&mut ins, 6000, ts); ts = ts.wrapping_add(160); }
+        let newest = ts.wrapping_sub(160);
+        if r.chance(1, 3) { push(&mut ins, 6001, 42); }
+        push(&mut ins, 6000, newest.wrapping_sub(behind));            // the straggler
+        if r.chance(1, 3) { push(&mut ins, 6000, newest.wrapping_sub(behind).wrapping_add(160)); }   // a second late one
+        for _ in 0..r.range(1, 3) { push(&mut ins, 6000, ts); ts = ts.wrapping_add(160); }
+        (c, ins)
     }
 
     pub async fn run(args: &Args, r: &mut Rng, out: &mut super::Out) -> serde_json::Value {
@@ -403,14 +472,22 @@ mod bridge {
             let ins = gen_ins(r, len, &mut stats);
             all.push(("random".into(), c, ins));
         }
+        for _ in 0..(if thorough { 1500 } else { 300 }) {
+            let (c, ins) = gen_pt_switch(r);
+            all.push(("pt-switch".into(), c, ins));
+        }
+        for _ in 0..(if thorough { 1500 } else { 300 }) {
+            let (c, ins) = gen_straggler(r);
+            all.push(("straggler".into(), c, ins));
+        }
         // sequence-number wrap-around over a long single stream
         let c = Cfg { strip: false, init_seq: 65000, init_off: 0, init_out_ts: None, rules: vec![], video_pts: vec![], has_video: false, legacy: None };
         all.push(("long".into(), c, (0..700u32).map(|k| In { ssrc: 77, pt: 0, seq: k as u16, ts: k * 160, marker: false, ext: None }).collect()));
         let mut rebases = 0u64;
         let mut pkts = 0u64;
         for (kind, c, ins) in all {
-            let outs = run_impl(&net, &c, &ins).await;
-            let fail = oracle(&c, &ins, &outs);
+            let (outs, panicked) = run_impl(&net, &c, &ins).await;
+            let fail = panicked.or_else(|| oracle(&c, &ins, &outs));
             pkts += ins.len() as u64;
             let term = format!("BridgeCase ({}) {} {}", cfg_term(&c), list_term(&ins.iter().map(in_term).collect::<Vec<_>>()),
                 list_term(&outs.iter().map(out_term).collect::<Vec<_>>()));
@@ -548,6 +625,8 @@ const NL: usize = 5;
 
 struct ImplRun {
     obs: Vec<Obs>,
+    /// (operation index, what panicked): a panic in the real code is an observable result
+    panics: Vec<(usize, String)>,
     /// has_listener(ssrc) immediately before each Recv (oracle input only)
     bound_before: Vec<bool>,
     payload_mismatch: Option<String>,
@@ -566,30 +645,39 @@ async fn run_impl(ops: &[Op]) -> ImplRun {
     }
     let from: SocketAddr = "127.0.0.1:5000".parse().unwrap();
     let mut buf = Vec::new();
-    let mut out = ImplRun { obs: vec![], bound_before: vec![], payload_mismatch: None };
+    let mut out = ImplRun { obs: vec![], panics: vec![], bound_before: vec![], payload_mismatch: None };
     let mut seq: u16 = 0;
-    for o in ops {
+    use futures::FutureExt;
+    use std::panic::AssertUnwindSafe as Aus;
+    for (oi, o) in ops.iter().enumerate() {
+        // every call into the real code runs under catch: a panic is recorded, the case goes on
+        let mut guard = |name: &str, r: Result<(), String>, panics: &mut Vec<(usize, String)>| {
+            if let Err(m) = r { panics.push((oi, format!("{} panicked: {}", name, m))); }
+        };
         match o {
-            Op::RegSsrc(x, l) => t.register_listener_sync(*x, txs[*l].clone()),
-            Op::RegRid(k, l) => t.register_rid_listener(k.clone(), txs[*l].clone()),
-            Op::RegMid(k, l) => t.register_mid_listener(k.clone(), txs[*l].clone()),
-            Op::RegPt(pt, l) => t.register_pt_listener(*pt, txs[*l].clone()),
-            Op::RegPtList(pts, l) => t.register_payload_list_listener(pts.clone(), txs[*l].clone()),
-            Op::RegProv(l) => t.register_provisional_listener(txs[*l].clone()),
-            Op::SetRidId(i) => t.set_rid_extension_id(if *i == 0 { None } else { Some(*i) }),
-            Op::SetMidId(i) => t.set_sdes_mid_extension_id(if *i == 0 { None } else { Some(*i) }),
+            Op::RegSsrc(x, l) => guard("register_listener_sync", catch(Aus(|| t.register_listener_sync(*x, txs[*l].clone()))), &mut out.panics),
+            Op::RegRid(k, l) => guard("register_rid_listener", catch(Aus(|| t.register_rid_listener(k.clone(), txs[*l].clone()))), &mut out.panics),
+            Op::RegMid(k, l) => guard("register_mid_listener", catch(Aus(|| t.register_mid_listener(k.clone(), txs[*l].clone()))), &mut out.panics),
+            Op::RegPt(pt, l) => guard("register_pt_listener", catch(Aus(|| t.register_pt_listener(*pt, txs[*l].clone()))), &mut out.panics),
+            Op::RegPtList(pts, l) => guard("register_payload_list_listener", catch(Aus(|| t.register_payload_list_listener(pts.clone(), txs[*l].clone()))), &mut out.panics),
+            Op::RegProv(l) => guard("register_provisional_listener", catch(Aus(|| t.register_provisional_listener(txs[*l].clone()))), &mut out.panics),
+            Op::SetRidId(i) => guard("set_rid_extension_id", catch(Aus(|| t.set_rid_extension_id(if *i == 0 { None } else { Some(*i) }))), &mut out.panics),
+            Op::SetMidId(i) => guard("set_sdes_mid_extension_id", catch(Aus(|| t.set_sdes_mid_extension_id(if *i == 0 { None } else { Some(*i) }))), &mut out.panics),
             Op::Close(l) => {
                 rxs[*l] = None;
             }
-            Op::Clear => {
-                t.clear_listeners();
-            }
-            Op::Probe(x) => out.obs.push((vec![], t.has_listener(*x))),
+            Op::Clear => guard("clear_listeners", catch(Aus(|| { t.clear_listeners(); })), &mut out.panics),
+            Op::Probe(x) => match catch(Aus(|| t.has_listener(*x))) {
+                Ok(b) => out.obs.push((vec![], b)),
+                Err(m) => { out.panics.push((oi, format!("has_listener panicked: {}", m))); out.obs.push((vec![], false)); }
+            },
             Op::Recv(p) => {
                 seq = seq.wrapping_add(1);
-                out.bound_before.push(t.has_listener(p.ssrc));
+                out.bound_before.push(catch(Aus(|| t.has_listener(p.ssrc))).unwrap_or(false));
                 let wire = build_rtp(p.ssrc, p.pt, seq, 1000, false, &p.ext, &[seq as u8; 4]);
-                t.receive(Bytes::from(wire), from, &mut buf).await;
+                if let Err(e) = Aus(t.receive(Bytes::from(wire), from, &mut buf)).catch_unwind().await {
+                    out.panics.push((oi, format!("receive panicked: {}", panic_msg(e))));
+                }
                 let mut got = vec![];
                 for (i, r) in rxs.iter_mut().enumerate() {
                     if let Some(r) = r {
@@ -605,11 +693,16 @@ async fn run_impl(ops: &[Op]) -> ImplRun {
                         }
                     }
                 }
-                out.obs.push((got, t.has_listener(p.ssrc)));
+                out.obs.push((got, catch(Aus(|| t.has_listener(p.ssrc))).unwrap_or(false)));
             }
         }
     }
     out
+}
+
+pub fn panic_msg(e: Box<dyn std::any::Any + Send>) -> String {
+    if let Some(s) = e.downcast_ref::<&str>() { s.to_string() }
+    else if let Some(s) = e.downcast_ref::<String>() { s.clone() } else { "panic".into() }
 }
 
 // ------------------------------------------------------------------------------ direct oracle
@@ -645,6 +738,9 @@ fn ext_key(id: u8, p: &Pkt) -> Option<Vec<u8>> {
 }
 
 fn oracle(ops: &[Op], run: &ImplRun) -> Option<String> {
+    if let Some((i, m)) = run.panics.first() {
+        return Some(format!("op {}: {} (a registration / receive call must never panic)", i, m));
+    }
     if let Some(m) = &run.payload_mismatch {
         return Some(m.clone());
     }
@@ -706,9 +802,29 @@ fn oracle(ops: &[Op], run: &ImplRun) -> Option<String> {
                     }
                     continue;
                 }
+                // no RID / MID names anybody and the SSRC is unbound: only the payload type (or the
+                // provisional catch-all) can route this packet, so whoever gets it must have claimed
+                // the payload type itself or be provisional.  An open listener's own registrations
+                // are never pruned, so this holds with closed listeners around as well.
+                if !bound_before && !o.ssrc_owner.contains_key(&p.ssrc) {
+                    if let Some(d) = got.first() {
+                        let claims = o.pts.get(d).map(|v| v.contains(&(p.pt & 0x7f))).unwrap_or(false);
+                        if !claims && !o.prov.contains(d) {
+                            return Some(format!("op {}: unbound SSRC {}, no RID/MID: payload type {} was never registered by listener {} (its list: {:?}) and it is not provisional, yet it received the packet (claimed by {:?})",
+                                i, p.ssrc, p.pt, d, o.pts.get(d), o.pts.iter().filter(|(_, v)| v.contains(&(p.pt & 0x7f))).map(|(l, _)| *l).collect::<Vec<_>>()));
+                        }
+                        // a claimant that is open and alone among ALL listeners ever named (closed ones
+                        // included) must get it: a closed stranger that does not list the PT cannot make it ambiguous
+                    } else {
+                        let claim: Vec<usize> = o.pts.iter().filter(|(_, v)| v.contains(&(p.pt & 0x7f))).map(|(l, _)| *l).collect();
+                        if claim.len() == 1 && !o.closed.contains(&claim[0]) && o.any_close {
+                            return Some(format!("op {}: payload type {} is claimed by open listener {} only (no closed listener lists it) but the packet was dropped", i, p.pt, claim[0]));
+                        }
+                    }
+                }
                 if o.any_close {
-                    // closed listeners are pruned lazily; which registrations are still in force is
-                    // not determined by the property text -- only the checks above apply
+                    // closed listeners are pruned lazily; which of THEIR registrations are still in force
+                    // is not determined by the property text -- only the checks above apply
                     if let Some(d) = got.first() { if *bound_after { o.ssrc_owner.insert(p.ssrc, *d); } }
                     continue;
                 }
@@ -821,6 +937,14 @@ fn gen_case(r: &mut Rng, stats: &mut BTreeMap<String, u64>, long: bool) -> Vec<O
         } else {
             Op::Recv(Pkt { ssrc: *r.pick(&ssrcs), pt: *r.pick(&pts), ext: gen_ext(r, rid_id, mid_id, stats) })
         };
+        // after a close, often refresh another listener's route registration on the same sender
+        let op = if closes && matches!(ops.last(), Some(Op::Close(_))) && r.chance(1, 2) {
+            match r.below(3) {
+                0 => Op::RegPtList((0..r.range(1, 3)).map(|_| *r.pick(&pts)).collect(), l),
+                1 => Op::RegPt(*r.pick(&pts), l),
+                _ => Op::RegMid(r.pick(KEYS).to_string(), l),
+            }
+        } else { op };
         let name = match &op {
             Op::RegSsrc(..) => "reg_ssrc", Op::RegRid(..) => "reg_rid", Op::RegMid(..) => "reg_mid", Op::RegPt(..) => "reg_pt",
             Op::RegPtList(..) => "reg_pt_list", Op::RegProv(..) => "reg_prov", Op::SetRidId(..) => "set_rid_id",
@@ -863,6 +987,11 @@ fn corpus() -> Vec<Vec<Op>> {
         vec![Op::SetMidId(1), Op::RegMid("a".into(), 0), Op::RegSsrc(5, 1), Op::Close(0), p(5, 0, mid_ext(1, "a")), Op::Probe(5), p(5, 0, None)],
         // route pruning on registration of a new channel
         vec![Op::RegProv(0), Op::RegPt(96, 1), Op::Close(0), Op::Close(1), Op::RegProv(2), p(1, 96, None), p(1, 0, None)],
+        // closed route earlier in `routes`, B refreshes its list on the same sender, C follows: PT 98 is B's alone
+        vec![Op::RegPtList(vec![96], 0), Op::RegPtList(vec![97], 1), Op::RegPtList(vec![111], 2), Op::Close(0),
+             Op::RegPtList(vec![97, 98], 1), p(31, 98, None), p(32, 111, None), p(33, 97, None)],
+        // same with B as the last route (an index computed before pruning would be out of range)
+        vec![Op::RegProv(0), Op::RegPtList(vec![97], 1), Op::Close(0), Op::RegPtList(vec![98], 1), p(41, 98, None), Op::RegMid("b".into(), 1), p(42, 98, None)],
         // clear_listeners: nobody is registered afterwards, also not through the MID map
         vec![Op::SetMidId(1), Op::RegMid("a".into(), 0), Op::Clear, p(9, 96, mid_ext(1, "a")), Op::Probe(9)],
         // unregistered MID falls through to the unique payload type of another section (documented limit)
@@ -874,6 +1003,55 @@ fn corpus() -> Vec<Vec<Op>> {
         // register_pt after register_payload_list on the same channel; duplicates in the list
         vec![Op::RegPtList(vec![96, 96, 97], 0), Op::RegPt(97, 0), Op::RegPt(8, 0), Op::RegPtList(vec![8], 1), p(1, 8, None), p(2, 97, None), Op::RegPtList(vec![], 0), p(3, 97, None)],
     ]
+}
+
+/// Re-registration next to a closed, still-listed route: X, B, C register route-style (in every
+/// order of B relative to X and C), X's receiver is dropped without any packet having been routed to
+/// it, B re-registers on the SAME sender with a changed PT list / extra PT / MID / provisional flag,
+/// then packets with unbound SSRCs and no RID/MID probe every payload type involved.  B's refresh
+/// must land on B: a payload type only B lists must not reach C, C's own must still reach C.
+fn stale_route_cases() -> Vec<Vec<Op>> {
+    let p = |ssrc: u32, pt: u8| Op::Recv(Pkt { ssrc, pt, ext: None });
+    let (x, b, c) = (0usize, 1usize, 2usize);
+    let first: Vec<Box<dyn Fn(usize, u8) -> Vec<Op>>> = vec![
+        Box::new(|l, pt| vec![Op::RegPtList(vec![pt], l)]),
+        Box::new(|l, pt| vec![Op::RegPt(pt, l)]),
+        Box::new(|l, pt| vec![Op::RegMid(format!("m{}", l), l), Op::RegPtList(vec![pt], l)]),
+        Box::new(|l, pt| vec![Op::RegProv(l), Op::RegPt(pt, l)]),
+    ];
+    let refresh: Vec<Vec<Op>> = vec![
+        vec![Op::RegPtList(vec![98], b)],
+        vec![Op::RegPtList(vec![98, 101], b)],
+        vec![Op::RegPt(98, b)],
+        vec![Op::RegMid("nb".into(), b), Op::RegPtList(vec![98], b)],
+        vec![Op::RegProv(b)],
+        vec![Op::RegPtList(vec![], b)],
+    ];
+    let orders: Vec<Vec<usize>> = vec![vec![x, b, c], vec![x, c, b], vec![b, x, c], vec![c, x, b], vec![x, b], vec![b, c, x]];
+    let mut v = vec![];
+    for (fi, f) in first.iter().enumerate() {
+        for rf in &refresh {
+            for ord in &orders {
+                let mut ops = vec![Op::SetMidId(1)];
+                for &l in ord {
+                    ops.extend(f(l, [96u8, 97, 111][l]));   // X: 96, B: 97, C: 111
+                }
+                ops.push(Op::Close(x));
+                ops.extend(rf.iter().cloned());
+                let mut ssrc = 1000u32;
+                for pt in [98u8, 101, 97, 111, 96, 8] {
+                    ssrc += 1;
+                    ops.push(p(ssrc, pt));
+                    ops.push(Op::Probe(ssrc));
+                }
+                // the refreshed registration keeps working afterwards
+                ops.push(Op::RegPt(8, b));
+                ops.push(p(2000 + fi as u32, 8));
+                v.push(ops);
+            }
+        }
+    }
+    v
 }
 
 /// exhaustive suffixes over a small alphabet after a fixed two-section prefix
@@ -897,6 +1075,7 @@ async fn main() {
     let mut stats: BTreeMap<String, u64> = BTreeMap::new();
     let mut all: Vec<(String, Vec<Op>)> = vec![];
     for ops in corpus() { all.push(("corpus".into(), ops)); }
+    for ops in stale_route_cases() { all.push(("stale-route".into(), ops)); }
     let alpha = alphabet();
     let depth = if thorough { 4 } else { 3 };
     let mut idx = vec![0usize; depth];
